@@ -130,7 +130,7 @@ def main():
         with open(g, "wb") as f:
             f.write(b"<abi-corpus-group version='2.1' architecture='elf-amd-x86_64'>\n" + open(docs[0]["path"], "rb").read() + b"</abi-corpus-group>\n")
         docs.append({"name": "group", "desc": "corpus group around " + docs[0]["name"], "path": g})
-    for k, p in enumerate(sample_documents(c, 12 if c.thorough else 5)):
+    for k, p in enumerate(sample_documents(c, 12 if c.thorough else 4)):
         q = os.path.join(dd, "s%d.abi" % k)
         open(q, "wb").write(open(p, "rb").read())
         docs.append({"name": "s%d" % k, "desc": "tests/data sample " + os.path.relpath(p, vf.REPO), "path": q})
@@ -154,7 +154,7 @@ def main():
         vf.infra("no usable document")
 
     # ---- mutations -> jobs
-    per_doc = 420 if c.thorough else 110
+    per_doc = 300 if c.thorough else 90
     jobs, nclasses = [], set()
     md = os.path.join(W, "mut")
     os.makedirs(md, exist_ok=True)
@@ -265,7 +265,7 @@ def main():
     c.cov["documents"] = [d["desc"] for d in docs]
     c.cov["cpu_time_limit_s"] = limit
     c.cov["rule"] = ("model: every document reachable from 2 base documents (5 elements) by <= 2 mutations; campaign: %d mutation classes (render/xmlmut.py, "
-                     "%d per document, at least one per class) of %d documents x {abilint on the ASan+UBSan and the unsanitized build, abidiff in %s}; "
+                     "%d per document: a fifth byte-level, the others round-robin over the actions and their classes) of %d documents x {abilint on the ASan+UBSan and the unsanitized build, abidiff in %s}; "
                      "non-trivial = distinct mutated documents" % (len(nclasses), per_doc, len(docs), "both positions" if c.thorough else "one position (rotating)"))
     for e in [e for e in events if e["kind"] != "none"][:3] + events[:2]:
         c.sample(e)
